@@ -42,6 +42,8 @@ HELPERS = [
     ("first", {}, "x"), ("last", {}, "x"), ("nth", {"index": 1}, "x"), ("min", {}, "x"), ("max", {}, "x"), ("mode", {}, "x"),
     ("mean", {}, "x"), ("median", {}, "x"), ("quantile", {"q": 0.25}, "x"), ("std", {}, "x"), ("std", {"ddof": 1}, "x"),
     ("var", {}, "x"), ("sum", {}, "x"), ("first", {}, "s"), ("max", {}, "s"), ("mode", {}, "s"), ("count_unique", {"drop_na": True}, "s"),
+    # an integer column holding values that float64 cannot represent: summaries of it are those integers, exactly
+    ("min", {}, "g"), ("max", {}, "g"), ("first", {}, "g"), ("nth", {"index": -1}, "g"), ("mode", {}, "g"),
 ]
 
 
@@ -77,7 +79,8 @@ def payload_cols(n):
     return [["id", "i8", list(range(n))],
             ["x", "f8", [xa[i % 5] for i in range(n)]],
             ["s", "str", [sa[(i + 1) % 5] for i in range(n)]],
-            ["b", "b1", [i % 3 != 1 for i in range(n)]]]
+            ["b", "b1", [i % 3 != 1 for i in range(n)]],
+            ["g", "i8", [9007199254740993 + 2 * ((i * 3) % 5) for i in range(n)]]]
 
 
 def group_rows(keycells, n):
@@ -140,6 +143,10 @@ def miss(v):
 def same_summary(a, b):
     if miss(a) or miss(b):
         return miss(a) and miss(b)
+    if isinstance(a, int) and isinstance(b, int) and not isinstance(a, bool) and not isinstance(b, bool):
+        return a == b
+    if (isinstance(a, int) or isinstance(b, int)) and max(abs(a), abs(b)) >= 2 ** 53 and not (isinstance(a, bool) or isinstance(b, bool)):
+        return False   # one side went through float64: an integer of this size does not survive that
     return V.same_value(a, b, tol=True)
 
 
